@@ -613,15 +613,25 @@ def rule_normzero(ctx):
     return res.finish(1)
 
 
+def make_absfloor_rule(rid, select, what):
+    def rule(ctx):
+        return _absfloor(ctx, rid, select, what)
+    return rule
+
+
 def rule_absfloor(ctx):
+    return _absfloor(ctx, "R-C16-absfloor", lambda f: f["d"]["krate"] == "linfa_preprocessing" and f["d"]["name"] == "fit" and fn_file(f).endswith("whitening.rs") and not f.get("exp"), "Whitener::fit")
+
+
+def _absfloor(ctx, rid, select, what_fn):
     """`whitening gives identity sample covariance on full-rank data`, whatever the unit of the data.  The spectrum of the
     (centred) data scales with that unit, so a floor on it - or on its inverse - that is an absolute constant binds for data
     that is small (large) enough, full rank or not, and the whitened covariance is no longer the identity.  Each clamp of a
     spectrum value by a positive literal in Whitener::fit is a site; it is keyed by the arm it sits in and by what is clamped
     (the value that is inverted afterwards, or the inverse itself)."""
-    res = RuleResult("R-C16-absfloor", "no singular value / eigenvalue (or its inverse) is clamped by an absolute constant in Whitener::fit")
+    res = RuleResult(rid, "no singular value / eigenvalue (or its inverse) is clamped by an absolute constant in %s" % what_fn)
     F = ctx.facts()
-    fns = [f for f in F.all_fns() if f["d"]["krate"] == "linfa_preprocessing" and f["d"]["name"] == "fit" and fn_file(f).endswith("whitening.rs") and not f.get("exp")]
+    fns = [f for f in F.all_fns() if select(f)]
     n = 0
     from .layout import with_parents
     for fn in fns:
@@ -669,7 +679,7 @@ def rule_absfloor(ctx):
         if not found:
             res.ok()
     if n < 1:
-        res.missing_anchor("Whitener::fit")
+        res.missing_anchor(what_fn)
     return res.finish(1)
 
 
